@@ -90,7 +90,7 @@ def run(spec, cfg, scratch, workers=16, env=None, timeout=900, depth_first=False
     os.makedirs(meta, exist_ok=True)
     # a heap cap per TLC run: several runs go in parallel, and the JVM default (a quarter of the RAM each) made the
     # kernel's OOM killer end some of them when checks ran side by side
-    cmd = ["java", "-XX:+UseParallelGC", "-Xmx" + os.environ.get("VERIF_TLC_HEAP", "8g"), "-cp", JAR, "tlc2.TLC",
+    cmd = ["java", "-XX:+UseParallelGC", "-Xmx" + os.environ.get("VERIF_TLC_HEAP", "4g"), "-cp", JAR, "tlc2.TLC",
            "-workers", str(workers), "-metadir", meta, "-noGenerateSpecTE", "-config", cfg_path]
     if coverage:
         cmd += ["-coverage", "1"]
